@@ -43,7 +43,7 @@ class RunCtx:
         self.opts = opts
         seed = program.get("seed", 0)
         base = scratch_base()
-        self.root = os.path.join(base, f"run-{os.getpid()}")
+        self.root = os.path.join(base, f"run-{os.getpid():08d}")  # constant length: paths may end up inside commands
         shutil.rmtree(self.root, ignore_errors=True)
         os.makedirs(self.root)
         lat = program.get("latency") or {}
